@@ -114,7 +114,7 @@ class Gen:
                            "0x0100010050", "01000100500\tD4460102"])
             return f"{n};255;4;{a};0;{pl}"
         if k == "fwreq":
-            f = r.choice(self.fws + [(9, 9)])
+            f = r.choice(self.fws + [(9, 9), (0, self.fws[0][1]), (self.fws[0][0], 0), (0, 0)])
             good = hexwords(f[0], f[1], r.choice([0, 1, 7, 8, 500]))
             pl = r.choice([good, good, "zz", "0100", "", "01000200030", "é", good[:4] + " " + good[4:8] + " " + good[8:],
                            good[:6] + "  " + good[6:], " " + good])
@@ -125,7 +125,9 @@ class Gen:
             return r.choice([
                 f"{n};{c};1;2;{self.t()};1", f"256;{c};1;0;0;1", f"{n};255;1;0;0;1", f"{n};{c};3;0;0;5",
                 f"{n};{c};7;0;0;", f"-1;0;0;0;0;", f"{n};{c};1;0;99;1", f"{n};255;3;0;77;", f"{n};{c};2;0;0;zz",
-                f"{n};255;0;0;17;1.3", f"{n};{c};1;0;2;2", f"{n};{c};1;0;3;101", f"{n};256;0;0;3;x"])
+                f"{n};255;0;0;17;1.3", f"{n};{c};1;0;2;2", f"{n};{c};1;0;3;101", f"{n};256;0;0;3;x",
+                # stream sub-types 3 / 4 (the numbers of the id request / response among the internal ones) for a child
+                f"{n};{r.choice([0, 1, 7])};4;0;{r.choice([3, 4])};00", f"{n};{r.choice([0, 1, 7])};4;0;{r.choice([0, 2])};0A000100"])
         return r.choice(["", "bad;bad;bad;bad;bad;bad", "1;2;3", "1;2;3;4;5;6;7", ";;;;;", "1;0;1;0;", "\x00\x01",
                          "1;0;1;0;23", "a;0;1;0;23;5", "1;0;1;0;23;5;", "ÿþ", "1; ;1;0;23;5", " ", "1;0;1;0;2_3x;5"])
 
@@ -161,6 +163,14 @@ def run_history(rng, version, flavour, steps, *, profile=None, calls=True, persi
                 pump_bias=0.7, hexfile=None, clock=True, mqtt=False, harsh=False, prefix=None,
                 tick_p=0.06, restart_p=0.03, snap_dir=None, snap_p=0.0, no_callback=False, real_link=None, surrogate=False):
     """One random history on a fresh gateway; returns the trace dict."""
+    # a quarter of the histories run with the library's loggers at DEBUG (into nowhere): logging must not change behaviour
+    import logging
+    lg = logging.getLogger("mysensors")
+    if not lg.handlers:
+        lg.addHandler(logging.NullHandler())
+    lg.setLevel(logging.DEBUG)
+    lg.propagate = False
+    logging.disable(logging.NOTSET if rng.random() < 0.25 else logging.CRITICAL)
     interner = Interner()
     if real_link is None:
         real_link = not mqtt and rng.random() < 0.5
